@@ -163,6 +163,9 @@ def _cast_operand_start(code, as_pos):
             continue
         if c == '.':
             j -= 1
+            # a method chain may continue on the previous line: `)\n    .as_millis() as u64`
+            while j >= 0 and code[j].isspace():
+                j -= 1
             continue
         if c == ':' and j >= 1 and code[j - 1] == ':':
             j -= 2
@@ -170,6 +173,17 @@ def _cast_operand_start(code, as_pos):
         if c == '?':
             j -= 1
             continue
+        if c.isspace():
+            # whitespace inside a chain is only skipped when the chain continues with `.` on the right of it
+            k = j
+            while k >= 0 and code[k].isspace():
+                k -= 1
+            nxt = j + 1
+            while nxt < len(code) and code[nxt].isspace():
+                nxt += 1
+            if nxt < len(code) and code[nxt] == '.' and k >= 0 and code[k] in ')]?':
+                j = k
+                continue
         break
     start = j + 1
     # handle `a as usize as u16`: code between start and as_pos may begin with keyword pieces; fine.
